@@ -1,25 +1,115 @@
-import BeyondVerif.Model.DateUse
+import BeyondVerif.Model.DateCfg
+import BeyondVerif.Model.CcsdsDate
+import BeyondVerif.Model.DateIter
+import BeyondVerif.Generated.CcsdsDates
+import BeyondVerif.Drv.C03
 import BeyondVerif.Drv.Util
-namespace BeyondVerif.Drv.C04
-open BeyondVerif BeyondVerif.Drv BeyondVerif.DateUse
+/-!
+Line-protocol handler of C04.  Everything runs on C03's integer model of `Date` (`Model/Date.lean` with the
+configuration regenerated from /repo, `Model/DateCfg.lean`) under one of three EOP environments:
 
-/-- `c04.delta ra oa rb ob` : readings (µs) and offsets-to-TAI (µs, `TAI − label`) of two dates; reply `b − a` in µs.
-    `c04.eopday r o ou` : UTC day number used for the EOP lookup -/
+* `real`  — the IERS tables of tests/data/pole (`Generated/EopTable.lean`), missing-data policy "pass";
+* `zero`  — no database at all: every lookup falls back to the all-zero record;
+* `const` — the constant record the library's own test-suite mocks `EopDb.get` with (TAI−UTC = 36 s, UT1−UTC = 0.0175602 s).
+
+Times travel as decimal integers: microseconds for clock readings and timedeltas, ticks of 1e-7 s for offsets.
+-/
+namespace BeyondVerif.Drv.C04
+open BeyondVerif BeyondVerif.Drv BeyondVerif.Date BeyondVerif.Generated
+
+def envOf? : String → Option Env
+  | "real" => some (C03.envOf .pass)
+  | "zero" => some ⟨fun _ => none, [], .pass, C03.tdbTicks⟩
+  | "const" => some ⟨fun _ => some 175602, [(0, 360000000)], .pass, C03.tdbTicks⟩
+  | _ => none
+
+/-- scale, `_datetime` µs, `datetime` µs, `_offset` ticks, eop (ticks), own clock `d*D + s` (ticks) — as `d3…` of C03 -/
+def showDate (x : Date) : String := (C03.showDate x).drop 3 |>.toString
+
+def errS (e : Err) : String := "err " ++ C03.errStr e
+
+/-- one step of a history: `a<µs>` = `+ timedelta`, `s<µs>` = `- timedelta`, `c<SCALE>` = `change_scale`,
+`n` = `Date(date)` (copy constructor: `d`, `s`, `scale` of the argument through `__init__`),
+`p` = a copy that does not go through `__init__` (pickle, deepcopy): the same slots -/
+def step (env : Env) (x : Date) (op : String) : Option (Except Err Date) :=
+  match op.toList with
+  | 'a' :: r => (iOfStr? (String.ofList r)).map (fun t => add cfg env x t)
+  | 's' :: r => (iOfStr? (String.ofList r)).map (fun t => subTd cfg env x t)
+  | 'c' :: r => (C03.scaleOf? (String.ofList r)).map (fun sc => changeScale cfg env x sc)
+  | ['n'] => some (let ds := x.toScale; mk cfg env x.scale ds.1 ds.2)
+  | ['p'] => some (.ok x)
+  | _ => none
+
+/-- a history from a start date: the date after every step -/
+def chain (env : Env) (x : Date) : List String → List String → Option (List String)
+  | [], acc => some acc.reverse
+  | op :: ops, acc =>
+    match step env x op with
+    | none => none
+    | some (.error e) => some ((errS e) :: acc).reverse
+    | some (.ok y) => chain env y ops (showDate y :: acc)
+
+def strOfCodes? (s : String) : Option String :=
+  if s = "-" then some "" else
+  ((s.splitOn ",").mapM (fun (t : String) => t.toNat?.map Char.ofNat)).map String.ofList
+
+def branches : List CcsdsDate.Branch := parseDateBranches.map (fun p => ⟨p.1, p.2⟩)
+
 def handle : List String → Option String
-  | ["c04.delta", ra, oa, rb, ob] => some <|
-    match ra.toInt?, oa.toInt?, rb.toInt?, ob.toInt? with
-    | some ra, some oa, some rb, some ob =>
-      -- label 0 for a, 1 for b; `off l = label − TAI = −(TAI − label)`
-      let off : Nat → Int := fun l => if l = 0 then -oa else -ob
-      toString (sub (ofReading off rb 1) (ofReading off ra 0))
-    | _, _, _, _ => "bad-op"
-  | ["c04.eopday", r, o, ou] => some <|
-    -- own-scale reading r (µs), TAI − label = o, TAI − UTC = ou  →  UTC day number used for the EOP lookup
-    match r.toInt?, o.toInt?, ou.toInt? with
-    | some r, some o, some ou =>
-      let off : Nat → Int := fun l => if l = 0 then -ou else -o
-      toString (eopDay off 0 (ofReading off r 1))
-    | _, _, _ => "bad-op"
+  -- c04.chain env scale us op… : the start date and the date after every operation
+  | "c04.chain" :: e :: scale :: us :: ops => some <| Id.run do
+    let some env := envOf? e | return "bad-op"
+    let some sc := C03.scaleOf? scale | return "err unknown-scale"
+    let some us := iOfStr? us | return "bad-op"
+    match ofDatetime cfg env sc us with
+    | .error er => return errS er
+    | .ok x =>
+      match chain env x ops [showDate x] with
+      | none => return "bad-op"
+      | some l => return joinWith " | " l
+  -- c04.cmp env sa ua sb ub : b − a (µs) and the six comparisons / hash of two dates
+  | ["c04.cmp", e, sa, ua, sb, ub] => some <| Id.run do
+    let some env := envOf? e | return "bad-op"
+    let some a := C03.mkOf env sa ua | return "bad-op"
+    let some b := C03.mkOf env sb ub | return "bad-op"
+    match a, b with
+    | .ok x, .ok y => return s!"ok {subDate y x} {C03.b (y.lt x)} {C03.b (y.le x)} {C03.b (y.eq x)} {C03.b (y.ge x)} {C03.b (y.gt x)} {C03.b (y.hashKey == x.hashKey)}"
+    | _, _ => return "err missing-eop"
+  -- c04.range env scale us durUs stepUs incl : the dates a DateRange yields (start + timedelta as stop)
+  | ["c04.range", e, scale, us, dur, st, incl] => some <| Id.run do
+    let some env := envOf? e | return "bad-op"
+    let some sc := C03.scaleOf? scale | return "err unknown-scale"
+    let some us := iOfStr? us | return "bad-op"
+    let some dur := iOfStr? dur | return "bad-op"
+    let some st := iOfStr? st | return "bad-op"
+    match ofDatetime cfg env sc us with
+    | .error er => return errS er
+    | .ok x =>
+      match add cfg env x dur with
+      | .error er => return errS er
+      | .ok stop =>
+        match Range.make x.datetimeRef stop.datetimeRef st (incl == "1") with
+        | .error er => return errS er
+        | .ok _ =>
+          match rangeIter cfg env stop st (incl == "1") 5000 x with
+          | .error er => return errS er
+          | .ok l => return joinWith " | " ("ok" :: l.map showDate)
+  -- c04.pd env scale codes : parse_date(string, scale); codes = the text as comma-separated code points
+  | ["c04.pd", e, scale, codes] => some <| Id.run do
+    let some env := envOf? e | return "bad-op"
+    let some sc := C03.scaleOf? scale | return "err unknown-scale"
+    let some s := strOfCodes? codes | return "bad-op"
+    match CcsdsDate.parseDate cfg env defaultScale branches s sc with
+    | none => return "err value-error"
+    | some (.error er) => return errS er
+    | some (.ok x) => return showDate x
+  -- c04.fmt codes-of-format codes-of-text : datetime.strptime as a clock reading
+  | ["c04.fmt", f, codes] => some <| Id.run do
+    let some f := strOfCodes? f | return "bad-op"
+    let some s := strOfCodes? codes | return "bad-op"
+    match CcsdsDate.strptime f s with
+    | none => return "err value-error"
+    | some us => return s!"ok {us}"
   | _ => none
 
 end BeyondVerif.Drv.C04
